@@ -881,7 +881,7 @@ func c14IndexDeps(c *ctx) {
 }
 
 func runC14(c *ctx) {
-	c.rep.Rule = "stores: memory, localdisk, diskpacked (300-byte packs: a roll-over every other upload; memory and leveldb index), blobpacked, encrypt, proxycache, shard, namespace, overlay, replica, cond, every layer and key/value index wrapped so that each lower-layer call is preceded and followed by a random yield or a sleep of up to 200 us; programs of 2-16 clients (16 in the first program per backend) x 3-6 calls (receive 30%, fetch 20%, stat 15%, enumerate 10%, remove 25%) over 2-5 blobs shared by all clients (the empty blob included), then stat+fetch of every blob and an enumerate; every call stamped with a tick of one atomic counter before and after; per ref, the calls (an enumerate counts as a read of every ref) go to the judge of coq/Model/C14.v; " +
+	c.rep.Rule = "stores: memory, localdisk (also under a queue- directory, where enumerations clean up empty shard directories), files over a VFS that yields around every file-system call, diskpacked (300-byte packs: a roll-over every other upload; memory and leveldb index), blobpacked, encrypt, proxycache, shard, namespace, overlay, replica, cond, every layer and key/value index wrapped so that each lower-layer call is preceded and followed by a random yield or a sleep of up to 200 us; programs of 2-16 clients (16 in the first program per backend, 12 clients on a single blob in the second) x 3-6 calls (receive 30%, fetch 20%, stat 15%, enumerate 10%, remove 25%) over 2-5 blobs shared by all clients (the empty blob included), then stat+fetch of every blob and an enumerate; every call stamped with a tick of one atomic counter before and after; per ref, the calls (an enumerate counts as a read of every ref) go to the judge of coq/Model/C14.v; " +
 		"index+corpus: 2-6 feeders deliver permanodes and set/remove-attribute claims (each permanode's claims by one feeder, dates ascending) while 1-5 queriers run the search handler's query 'permanodes with tag=x' (sorted and unsorted) and describes; per permanode, claims are writes and queries are reads; dependency races: a file schema blob is uploaded, the blob source answers the index's fetch of its chunk with 'not there' and, before that answer arrives, another client uploads the chunk and has it indexed completely: afterwards every acknowledged file must be indexed and nothing may still wait; the harness binary is built with -race and every report of the detector is a violation; non-trivial = a ref history with at least one pair of overlapping calls"
 	old := log.Writer()
 	log.SetOutput(io.Discard)
